@@ -49,12 +49,12 @@ func doNew(c []byte, cexpr, class, note string) {
 	}
 	if !sampleAll {
 		// quick tier: the Go-side oracle (cheap) sees every input; the Coq model (what costs) a
-		// deterministic 1/16 sample of them
+		// deterministic 1/20 sample of them
 		h := uint32(2166136261)
 		for _, b := range c {
 			h = (h ^ uint32(b)) * 16777619
 		}
-		if h%16 != 0 {
+		if h%20 != 0 {
 			seenInput[string(c)] = true
 			r := cfgx.Run(c)
 			desc := r.Desc(note)
@@ -528,7 +528,7 @@ func main() {
 			if len(c) > 100 && !thorough && k > 60 && k < len(c)-16 && k%97 != 0 {
 				continue
 			}
-			if isMax[v.name] && !thorough && k > 12 && k < len(c)-6 && k%211 != 0 {
+			if isMax[v.name] && !thorough && k > 12 && k < len(c)-6 {
 				continue
 			}
 			if len(c) > 5000 && k > 4 && k < len(c)-2 && (!thorough || k%9973 != 0) {
@@ -544,6 +544,9 @@ func main() {
 			vals := []int{0, 1, 2, int(c[o]) - 1, int(c[o]) + 1, 0x7F, 0x80, 0xFF}
 			if !thorough && len(lf) > 30 {
 				vals = []int{0, int(c[o]) - 1, int(c[o]) + 1, 0xFF}
+			}
+			if !thorough && isMax[v.name] {
+				vals = []int{0, int(c[o]) + 1, 0xFF}
 			}
 			seen := map[byte]bool{c[o]: true}
 			for _, x := range vals {
